@@ -253,6 +253,8 @@ func tFieldType(f tField) reflect.Type {
 		t = reflect.MapOf(tScalarType(f.K), tScalarType(f.E))
 	case "ENUM":
 		t = tScalarType(f.E)
+	case "UNION":
+		t = reflect.TypeOf((*any)(nil)).Elem()
 	default:
 		t = tScalarType(f.Ty)
 	}
@@ -286,6 +288,9 @@ func tStructType(layout []tField) reflect.Type {
 		}
 		if f.Ty == "ENUM" {
 			tag += ",enum"
+		}
+		if f.Ty == "UNION" {
+			tag = ",union"
 		}
 		fields[i] = reflect.StructField{Name: "F" + strconv.Itoa(i+1), Type: tFieldType(f),
 			Tag: reflect.StructTag(`thrift:"` + tag + `"`)}
@@ -363,8 +368,22 @@ func (l tlift) fieldValue(f tField, v tVal) reflect.Value {
 func (l tlift) structValue(layout []tField, vals []tVal) reflect.Value {
 	t := tStructType(layout)
 	s := reflect.New(t).Elem()
+	union := -1
 	for i, f := range layout {
+		if f.Ty == "UNION" {
+			union = i
+			continue
+		}
 		s.Field(i).Set(l.fieldValue(f, vals[i]))
+	}
+	if union >= 0 {
+		// the interface field points to the one field that is set (as Unmarshal leaves it)
+		for i, f := range layout {
+			if i != union && !s.Field(i).IsZero() {
+				_ = f
+				s.Field(union).Set(s.Field(i).Addr())
+			}
+		}
 	}
 	return s
 }
@@ -401,6 +420,12 @@ func tElemTreeGo(ty string, v reflect.Value) string {
 }
 
 func tFieldTreeGo(f tField, v reflect.Value) string {
+	if f.Ty == "UNION" {
+		if v.IsNil() {
+			return "nil"
+		}
+		return "->" + dumpOf(v.Elem())
+	}
 	if f.Ptr {
 		if v.IsNil() {
 			return "nil"
